@@ -9,7 +9,7 @@ def pick(rng, p): return rng.random() < p
 
 def rand_value(rng):
     atoms = ["-O2", "v1", "v2", "é", "a b", "", "${OPT}", "${builder}", "${app}", "\\${lit}", "${relpath}",
-             "$(1+2)", "${nosuch}", "x${OPT}y", "-I${relpath}/inc", "-O2", "v3", "w w", "${Y}", "${srcdir}/i", "${root}/r"]
+             "$(1+2)", "${nosuch}", "x${OPT}y", "-I${relpath}/inc", "-O2", "v3", "w w", "${Y}", "${srcdir}/i", "${root}/r", "${out}.map"]
     if pick(rng, 0.55):
         return rng.choice(atoms)
     return [rng.choice(atoms) for _ in range(rng.randint(0, 3))]
@@ -32,10 +32,12 @@ def base_rules(rng):
     ]
     if pick(rng, 0.3):
         rules.append({"name": "AS", "in": "S", "out": "o", "cmd": "as ${in} -o ${out}", "shareable": False})
+        if pick(rng, 0.4):      # extensions that differ in case only are different extensions
+            rules.append({"name": "ASL", "in": "s", "out": "o", "cmd": "as-plain ${in} -o ${out}"})
     if pick(rng, 0.2):
         rules[0]["gcc_deps"] = "${out}.d"
     if pick(rng, 0.4 if MULTIKEY else 0.15):
-        rules[0]["export"] = ["X", {"EXP": "${OPT}", **({"EXP2": "two", "EXP3": "three"} if MULTIKEY else {})}]
+        rules[0]["export"] = [rng.choice(["X", "X", "Y", "OPT"]), {"EXP": "${OPT}", **({"EXP2": "two", "EXP3": "three"} if MULTIKEY else {})}]
         if pick(rng, 0.3): rules[0]["export"].insert(rng.randrange(3), {})
     if pick(rng, 0.1):
         rules.append({"name": "POST_LINK", "in": "elf", "out": "bin", "cmd": "objcopy ${in} ${out}"})
@@ -72,7 +74,7 @@ def dep_list(rng, names, nmax=3, p_opt=0.4, p_if=0.2):
     return out
 
 def rand_task(rng, names):
-    t = {"cmd": [rng.choice(["echo ${app} ${builder}", "run ${out}", "echo \\${lit} $$X", "flash ${X}"])]}
+    t = {"cmd": [rng.choice(["echo ${app} ${builder}", "run ${out}", "echo \\${lit} $$X", "flash ${X}", "size ${LIBS} ${Y} ${out}"])]}
     if pick(rng, 0.3): t["required_vars"] = [rng.choice(["X", "CFLAGS", "NOPE"])]
     if pick(rng, 0.2):
         # an expression that is only valid where the requirement holds
@@ -94,6 +96,10 @@ def gen_module(rng, n, names, ctx_choice, penv, pc, pu, focus):
         m["uses"] = [("?" if pick(rng, 0.2) else "") + rng.choice(names) for _ in range(rng.randint(2, 4) if focus == "build" else rng.randint(1, 2))]
     if pick(rng, 0.4): m["provides"] = rng.sample(FEATURES, rng.randint(1, 2))
     if pick(rng, pu): m["provides_unique"] = [rng.choice(FEATURES)]
+    if pick(rng, 0.08):
+        # a provided name that is also the name of a module: a dependency on it takes the providers AND the module
+        others = [x for x in names if x not in FEATURES and x != n]
+        if others: m["provides"] = list(m.get("provides") or []) + [rng.choice(others)]
     if pick(rng, pc): m["conflicts"] = [rng.choice(FEATURES if pick(rng, 0.6) else names)]
     pbuild = 0.35 if focus == "build" else 0.08
     if pick(rng, pbuild):
@@ -105,7 +111,7 @@ def gen_module(rng, n, names, ctx_choice, penv, pc, pu, focus):
         if pick(rng, 0.1): m["download"] = {"git": {"url": "https://example.org/%s.git" % n, "commit": "beef%d" % rng.randint(0, 9)}}
     else:
         if pick(rng, 0.8):
-            srcs = [n + ".c"] + (["x%d.c" % rng.randint(0, 2)] if pick(rng, 0.3) else []) + ([n + ".S"] if pick(rng, 0.1) else [])
+            srcs = [n + ".c"] + (["x%d.c" % rng.randint(0, 2)] if pick(rng, 0.3) else []) + ([n + ".S"] if pick(rng, 0.1) else []) + ([n + "_l.s"] if pick(rng, 0.05) else [])
             if pick(rng, 0.06): srcs.append(n + rng.choice([" with blank.c", ":colon.c", " two  blanks.c", "$ dollar blank.c"]))   # names ninja would split
             if pick(rng, 0.6 if MULTIKEY else 0.25):
                 d = {}
@@ -200,9 +206,14 @@ def gen_project(rng, size="small", features=None, focus=None):
     builders = []
     for i in range(nb):
         bd = {"name": "b%d" % i, "parent": rng.choice(["default"] + ctx_names)}
+        if i and pick(rng, 0.15): bd["parent"] = "b%d" % rng.randrange(i)      # a builder below a builder
         e = rand_env(rng, 0.4)
         if e: bd["env"] = e
         if pick(rng, 0.3): bd.setdefault("env", {})["PORT"] = str(8000 + i)
+        if pick(rng, 0.08):
+            # a rule only this builder has (a key its neighbours lack)
+            bd["rules"] = [rng.choice([{"name": "POST_LINK", "in": "elf", "out": "hex", "cmd": "objcopy-%d ${in} ${out}" % i},
+                                       {"name": "ASB", "in": "S", "out": "o", "cmd": "as-%d ${in} -o ${out}" % i}])]
         if pick(rng, 0.25):
             bd["var_options"] = {rng.choice(["CFLAGS", "LIBS", "X"]): {k: v for k, v in
                                  (("joiner", ","), ("prefix", "-p"), ("suffix", ";"), ("start", "<"), ("end", ">")) if pick(rng, 0.5)}}
@@ -297,8 +308,9 @@ def gen_project(rng, size="small", features=None, focus=None):
         fill(doc, "root")
         doc["subdirs"] = ["sub"]
         if buckets["inc"][0] or buckets["inc"][1]:
-            doc["includes"] = ["extra.yml"]
-            files["extra.yml"] = [fill({}, "inc")]
+            incname = "extra.yml" if pick(rng, 0.7) else "incdir/extra.yml"      # an included file's directory is its relpath
+            doc["includes"] = [incname]
+            files[incname] = [fill({}, "inc")]
         if buckets["doc2"][0] or buckets["doc2"][1]:
             files["laze-project.yml"].append(fill({}, "doc2"))
         sub = fill({}, "sub")
@@ -340,7 +352,7 @@ def gen_project(rng, size="small", features=None, focus=None):
     cli = {}
     if pick(rng, 0.3): cli["select"] = [("?" if pick(rng, 0.3) else "") + rng.choice(names) for _ in range(rng.randint(1, 2))]
     if pick(rng, 0.15): cli["disable"] = [rng.choice(names) for _ in range(rng.randint(1, 2))]
-    if pick(rng, 0.7 if MULTIKEY else 0.25): cli["define"] = [rng.choice(VARS[:3]) + rng.choice(["=", "+="]) + rng.choice(["d1", "d 2", "${X}", "", "-Wl,-Map=out.map", "a,b", "k=v,w", "two  blanks", " lead"]) for _ in range(rng.randint(1, 3))]
+    if pick(rng, 0.7 if MULTIKEY else 0.25): cli["define"] = [rng.choice(VARS[:3]) + rng.choice(["=", "+="]) + rng.choice(["d1", "d 2", "${X}", "", "-Wl,-Map=out.map", "a,b", "k=v,w", "two  blanks", " lead", "user,id=net0,fwd=tcp::1-:2", "A=1,B=2", "-device v,netdev+=n0"]) for _ in range(rng.randint(1, 3))]
     if pick(rng, 0.15): cli["builders"] = rng.sample([b["name"] for b in builders], rng.randint(1, len(builders)))
     if pick(rng, 0.15): cli["apps"] = rng.sample([a["name"] for a in apps], rng.randint(1, len(apps)))
     if layout and pick(rng, 0.3):
